@@ -466,6 +466,7 @@ def rule_ow_mut(cx, rep, port):
                 frags.append((a_.func.value.value, c_))
             elif isinstance(a_, ast.Constant) and isinstance(a_.value, str):
                 frags.append((a_.value, c_))
+    ok = ok or any(f_.lstrip().startswith('safe_set(up_fields, {}, ') for f_, c_ in frags)
     direct = [(f_, c_) for f_, c_ in frags if 'up_fields' in f_ and not f_.lstrip(' {}').startswith('safe_set(up_fields, ')]
     if direct:
         rep.violated('generated assignments', direct[0][1], 'a generated UPDATE assignment is `{}...`: it writes the record copy without safe_set, so an assignment to a field the record does not have silently grows the record instead of raising the bad-field error that names the record'.format(direct[0][0][:50]))
